@@ -18,10 +18,10 @@ CLUSTER = {"brokers": [1, 2], "topics": {"t": {"0": 1, "1": 2}}, "coordinator": 
 ERRS = {"10": [15, 16], "11": [14, 15, 16, 25, 27, 23], "14": [14, 15, 16, 22, 25, 27], "12": [15, 16, 22, 25, 27],
         "8": [22, 25, 27, 16], "3": [5], "9": [14, 16], "1": [6]}
 EVENTS = [["phantom_joins", "grp"], ["phantom_leaves", "grp"], ["evict", "grp"], ["coordinator", "grp", 1],
-          ["restart", 2]]
+          ["restart", 2], ["fail_over", 2, 1]]
 MENU = {"err": ERRS, "silent": True, "drop": True, "refuse": True, "timer_early": True, "cluster_events": EVENTS}
 MENU_LIGHT = {"err": {"11": [27, 25], "14": [27, 22], "12": [27, 25], "10": [15], "3": [5]}, "silent": True,
-              "drop": True, "cluster_events": EVENTS[:3]}
+              "drop": True, "cluster_events": EVENTS[:3] + [EVENTS[5]]}
 
 
 def configs(tier, menu):
